@@ -43,6 +43,11 @@ def expr(rng, d=0):
         lambda: "aloneMethod(%s)" % rng.choice(ARGS),
         lambda: "%s.trim(%s).concat(%s)" % (par(rng.choice(RECV)), rng.choice(ARGS[:3]), rng.choice(ARGS)),
         lambda: "delete o[%s]" % sub(),
+        # an optional CALL whose callee is a member access (optional, parenthesised, or reached through an earlier optional link): its receiver is the call's this
+        lambda: "%s?.str?.(%s).%s(%s)" % (rng.choice(["o", "m", "f", "o.p"]), rng.choice(ARGS), rng.choice(METHODS), rng.choice(ARGS)),
+        lambda: "(%s.str)?.(%s).%s(%s)" % (rng.choice(["o", "m", "o.p"]), rng.choice(ARGS), rng.choice(METHODS), rng.choice(ARGS)),
+        lambda: "%s?.[%s]?.(%s).%s(%s)" % (rng.choice(["o", "m"]), rng.choice(["'str'", "k"]), rng.choice(ARGS), rng.choice(METHODS), rng.choice(ARGS)),
+        lambda: "%s?.p.str?.(%s).%s(%s)" % (rng.choice(["o", "m"]), rng.choice(ARGS), rng.choice(METHODS), rng.choice(ARGS)),
         # delete of an optional chain with an instrumentable call inside: the operand must stay a reference
         lambda: "delete %s?.%s(%s).p" % (rng.choice(["o", "m", "f"]), rng.choice(METHODS), rng.choice(ARGS)),
         lambda: "delete o?.p.%s(%s)[%s]" % (rng.choice(METHODS), rng.choice(ARGS), rng.choice(["'q'", "k", sub()])),
